@@ -72,6 +72,8 @@ def gen_case(g):
                      "writer": rng.choice(["numpoly", "numpoly", "numpy"])})
         if kind == "int" and rng.random() < 0.3:
             case["fmt"], case["tol"] = "%d", 0.0
+        if case["target"] in ("stringio", "bytesio") and route == "text" and rng.random() < 0.35:
+            case["sequential"] = True
     return case
 
 
@@ -184,7 +186,28 @@ def run_case(case, ctx, scratch):
     ctx.count("text_roundtrips")
     writer = numpoly.savetxt if case["writer"] == "numpoly" else numpy.savetxt
     try:
-        if target == "stringio":
+        if target in ("stringio", "bytesio") and case.get("sequential"):
+            # two arrays written one after the other into the same handle and read back in order:
+            # the second load starts where the first one stopped, not at the top of the file
+            ctx.count("text_sequential")
+            facts["sequential"] = True
+            handle = io.StringIO() if target == "stringio" else io.BytesIO()
+            q0, q1 = numpoly.variable(2)
+            first = numpoly.polynomial([3 * q0 ** 2 + 1, q0 * q1 - 2, 5])
+            writer(handle, first, **kwargs)
+            writer(handle, poly, **kwargs)
+            handle.seek(0)
+            head = numpoly.loadtxt(handle, delimiter=case["delimiter"], comments=case["comments"],
+                                   max_rows=first.size)
+            if not isinstance(head, numpoly.ndpoly) or head.shape != first.shape or \
+                    M.diff_arrays(M.abstract(head), M.abstract(first), rtol=1e-6):
+                facts["failure"] = "value"
+                ctx.violation(facts, f"first of two arrays in one handle loaded as {head!r:.200}", case)
+                return
+            back = numpoly.loadtxt(handle, delimiter=case["delimiter"], comments=case["comments"],
+                                   max_rows=max(poly.size, 1))
+            src = None
+        elif target == "stringio":
             handle = io.StringIO()
             writer(handle, poly, **kwargs)
             handle.seek(0)
@@ -200,7 +223,8 @@ def run_case(case, ctx, scratch):
         else:
             writer(pathlib.Path(path), poly, **kwargs)
             src = pathlib.Path(path)
-        back = numpoly.loadtxt(src, delimiter=case["delimiter"], comments=case["comments"])
+        if src is not None:
+            back = numpoly.loadtxt(src, delimiter=case["delimiter"], comments=case["comments"])
     except Exception as err:  # pylint: disable=broad-except
         O.report_exception(ctx, facts, err, case, what=f"text round trip via {case['writer']}.savetxt")
         return
